@@ -20,7 +20,7 @@ from vf.engines import explore, timermodel as tm
 LEVEL = "exploration"
 ENGINE = "E1-explore"
 TECHNIQUE = "runtime monitoring: reference timer-set model (exact rational times), min-property / creation-order / once checks"
-RULE = ("random histories (families generic / in-call bodies / large bursts) of up to ~260 operations over <= 60 (burst: 90) "
+RULE = ("random histories (families generic / in-call bodies / large bursts, with schedule-and-cancel pairs) of up to ~260 operations over <= 60 (burst: 90) "
         "calls with dyadic times on task.Clock; plus exhaustive histories (quick depth 4, thorough depth 5) over 3 calls, "
         "delays {0,1,2}, advances {0,1,2} with in-call bodies.  Distinct = history; non-trivial = at least one call ran and "
         "at least one cancel/reset/delay took effect or a call was scheduled from inside a call.")
